@@ -80,6 +80,45 @@ def structCfg (j : Json) : R Cfg := do
            hasR := fun m => hr.contains m, hasW := fun m => hw.contains m,
            omitUnch := match j.getObjVal? "omit" with | .ok (.bool b) => b | _ => false }
 
+def parseAOp (j : Json) : R AOp := do
+  match (← arr j) with
+  | [.str "assignStruct", v] => return .assignStruct (← parseDict v)
+  | [.str "assignMember", m, v] => return .assignMember (← m.getStr?) (← v.getInt?)
+  | _ => throw s!"bad overlapping assignment {j.compress}"
+
+def parseAOps (j : Json) : R (List AOp) := do (← arr j).mapM parseAOp
+
+/-- `{"before": [[m, [aop, ..]], ..], "seen": [[m, x], ..], "atEnd": [..], "afterRead": [..], "beforeErr": [..]}` -/
+def parseOverlap (j : Json) : R Overlap := do
+  let bef ← (← fldArr j "before").mapM (fun e => do
+    match (← arr e) with
+    | [m, ops] => return (← m.getStr?, ← parseAOps ops)
+    | _ => throw "bad overlap entry")
+  let seen ← (← fldArr j "seen").mapM (fun e => do
+    match (← arr e) with
+    | [m, x] => return (← m.getStr?, ← x.getInt?)
+    | _ => throw "bad seen entry")
+  return { before := fun m => (bef.lookup m).getD [], seen := fun m => seen.lookup m,
+           atEnd := ← parseAOps (← fld j "atEnd"), afterRead := ← parseAOps (← fld j "afterRead"),
+           beforeErr := ← parseAOps (← fld j "beforeErr") }
+
+def parseOOp (members : List String) (j : Json) : R OOp := do
+  match (← arr j) with
+  | [.str "seq", op] => return .seq (← parseSOp members op)
+  | [.str "readStructO", rA, rB, ov] =>
+    let rs ← (← arr rB).mapM (rresWith (·.getInt?))
+    return .readStructO (← rresWith parseDict rA) (fun m => ((members.zip rs).lookup m).getD (.fail .secop)) (← parseOverlap ov)
+  | [.str "writeStructO", v, wA, wB, ov] =>
+    let ws ← (← arr wB).mapM (wresWith (·.getInt?))
+    return .writeStructO (← parseDict v) (← wresWith parseDict wA) (fun m => ((members.zip ws).lookup m).getD (.fail .secop))
+      (← parseOverlap ov)
+  | [.str "readMemberO", m, rA, iv] =>
+    return .readMemberO (← m.getStr?) (← rresWith parseDict rA) (← (← arr iv).mapM parseAOps)
+  | [.str "writeMemberO", m, v, wA, rA, rB, iv] =>
+    return .writeMemberO (← m.getStr?) (← v.getInt?) (← wresWith parseDict wA) (← rresWith parseDict rA)
+      (← rresWith (·.getInt?) rB) (← (← arr iv).mapM parseAOps)
+  | _ => throw s!"bad overlapped struct op {j.compress}"
+
 /-! float/enum -/
 
 def parseVdict (j : Json) : R (List (Int × Val)) := do
@@ -247,6 +286,14 @@ def handle (j : Json) : R Json := do
       | _ => []
     let s0 : St := { init cfg with sP := sP0, mP := mP0 }
     return Json.mkObj [("init", stJson s0), ("states", jarr ((run cfg s0 ops).map stJson))]
+  | "struct_overlap" =>
+    let cfg ← structCfg j; let ops ← (← fldArr j "ops").mapM (parseOOp cfg.members)
+    let sP0 := match j.getObjVal? "sP0" with | .ok (.bool b) => b | _ => false
+    let mP0 := match j.getObjVal? "mP0" with
+      | .ok (.arr a) => a.toList.filterMap (fun x => match x with | .str m => some m | _ => none)
+      | _ => []
+    let s0 : St := { init cfg with sP := sP0, mP := mP0 }
+    return Json.mkObj [("init", stJson s0), ("states", jarr ((orun cfg s0 ops).map stJson))]
   | "judge_struct" =>
     let members ← fldStrs j "members"
     let trace ← (← fldArr j "trace").mapM (fun e => do
